@@ -227,6 +227,52 @@ fn bounded_work(rep: &Report, ids: &[Ident]) {
         }
     });
     rep.extra("bounded_pass_mode_cases", json!(pcases.len()));
+    // "never a hang", for input that arrives as a stream: an authentic file followed by a tail that does not end (a pipe or
+    // socket that stays open and keeps delivering). The answer must come while the tail is still short; a decryptor that has
+    // taken 64 MiB of tail without answering is waiting for an end of input that never comes.
+    {
+        struct Endless<'a> {
+            head: &'a [u8],
+            pos: usize,
+            tail_taken: u64,
+            cap: u64,
+        }
+        impl<'a> std::io::Read for Endless<'a> {
+            fn read(&mut self, buf: &mut [u8]) -> std::io::Result<usize> {
+                if self.pos < self.head.len() {
+                    let n = buf.len().min(self.head.len() - self.pos);
+                    buf[..n].copy_from_slice(&self.head[self.pos..self.pos + n]);
+                    self.pos += n;
+                    return Ok(n);
+                }
+                if self.tail_taken >= self.cap {
+                    return Err(std::io::Error::new(std::io::ErrorKind::Other, "the harness ends the endless tail"));
+                }
+                for b in buf.iter_mut() {
+                    *b = 0;
+                }
+                self.tail_taken += buf.len() as u64;
+                Ok(buf.len())
+            }
+        }
+        const CAP: u64 = 64 << 20;
+        for (mode, sub, file) in [("key", &kdec, &kf), ("password", &pdec, &pf)] {
+            rep.eval(1);
+            rep.nontrivial(format!("endless-tail-{}", mode).as_bytes());
+            let mut src = Endless { head: file, pos: 0, tail_taken: 0, cap: CAP };
+            let mut out = Vec::new();
+            let res = run_rw(sub, &mut src, &mut out);
+            let case = json!({"kind":"endless-tail","mode":mode});
+            if src.tail_taken >= CAP {
+                rep.violation("bounded/endless-tail-never-answered", case, format!("{}-mode decryption of an authentic file followed by an endless tail had taken {} bytes of the tail and still not answered (it answers only when the input ends: a hang on a stream that stays open)", mode, src.tail_taken));
+            } else if res.is_ok() {
+                rep.violation("bounded/endless-tail-accepted", case, format!("{}-mode decryption accepts an authentic file followed by further bytes", mode));
+            } else if let Res::Panic(m) = &res {
+                rep.violation("bounded/panic", case, format!("{}-mode decryption of an authentic file followed by a tail panicked: {}", mode, m));
+            }
+            rep.extra(&format!("endless_tail_bytes_taken_{}", mode), json!(src.tail_taken));
+        }
+    }
     rep.extra("bounded_pass_mode_peak_heap_max", json!(ppeak.load(Ordering::Relaxed)));
     rep.sample(json!({"surface":"bounded work","input":"chunk1.len=0xffffffff in a 2-chunk key-mode file","expect":"Err, peak heap < 1 MiB"}));
 }
@@ -518,7 +564,7 @@ fn cli_argv(rep: &Report) {
                 if seq.len() >= maxlen.max(3) && ei == 0 {
                     continue; // the longest vectors under the populated environment only
                 }
-                let cmd = Cmd { args: seq.iter().map(|&i| vocab[i].clone()).collect(), env: env.clone(), stdin: proc::StdinSpec::Null, stdout_file: None, stdout_closed_pipe: false, stdin_path: None, fsize_limit: None, pty: None, stdin_splits: vec![], stdout_nonblock_slow: None, env_bytes: vec![], stdout_reader_leaves_after: None, stdin_nonblock: false, stdin_socket_reset: None };
+                let cmd = Cmd { args: seq.iter().map(|&i| vocab[i].clone()).collect(), env: env.clone(), stdin: proc::StdinSpec::Null, stdout_file: None, stdout_closed_pipe: false, stdin_path: None, fsize_limit: None, pty: None, stdin_splits: vec![], stdout_nonblock_slow: None, env_bytes: vec![], stdout_reader_leaves_after: None, stdin_nonblock: false, stdin_socket_reset: None, stderr_reader_leaves_after: None };
                 let out = proc::run(&cmd, &sc.0);
                 count.fetch_add(1, Ordering::Relaxed);
                 completed_len.lock().unwrap()[seq.len()] += 1;
@@ -762,7 +808,7 @@ fn cli_option_junk(rep: &Report) {
         sc.write("kr.txt", kr.as_bytes());
         sc.write("plain.bin", &p);
         sc.write("ct.ktl", &ct);
-        let cmd = Cmd { args: args.clone(), env: vec![("KESTREL_PASSWORD".into(), "alicepw".into()), ("KESTREL_NEW_PASSWORD".into(), "x".into())], stdin: proc::StdinSpec::Bytes(b"newname\n".to_vec()), stdout_file: None, stdout_closed_pipe: false, stdin_path: None, fsize_limit: None, pty: None, stdin_splits: vec![], stdout_nonblock_slow: None, env_bytes: vec![], stdout_reader_leaves_after: None, stdin_nonblock: false, stdin_socket_reset: None };
+        let cmd = Cmd { args: args.clone(), env: vec![("KESTREL_PASSWORD".into(), "alicepw".into()), ("KESTREL_NEW_PASSWORD".into(), "x".into())], stdin: proc::StdinSpec::Bytes(b"newname\n".to_vec()), stdout_file: None, stdout_closed_pipe: false, stdin_path: None, fsize_limit: None, pty: None, stdin_splits: vec![], stdout_nonblock_slow: None, env_bytes: vec![], stdout_reader_leaves_after: None, stdin_nonblock: false, stdin_socket_reset: None, stderr_reader_leaves_after: None };
         let out = proc::run(&cmd, &sc.0);
         rep.nontrivial(&args.concat());
         if let Err(e) = out.well_behaved() {
@@ -772,9 +818,103 @@ fn cli_option_junk(rep: &Report) {
     rep.extra("cli_option_junk_vectors", json!(n));
 }
 
+/// A keyring file with one hostile entry among the genuine ones (before, between, after), offered to commands that
+/// otherwise run to completion: encrypt alice -> bob, decrypt of a REF file from alice (the sender lookup walks the
+/// entries) and of a REF file from a sender the keyring does not know (the lookup walks all of them). Any outcome that is
+/// exit 0, or exit 1 with an `Error:` line, is fine.
+fn cli_hostile_keyrings(rep: &Report) {
+    use rayon::prelude::*;
+    let seed = rep.seed;
+    let alice = Party::new(seed, "alice", "alicepw");
+    let bob = Party::new(seed, "bob", "alicepw");
+    let carol = Party::new(seed, "carol", "x");
+    let p = plaintext(seed ^ 0x9a, 33);
+    let from_alice = r::write_key_file(&alice.sk, &bob.pk, &derive32(seed, "c09-he"), &derive32(seed, "c09-hp"), &p, &[33]).unwrap();
+    let from_carol = r::write_key_file(&carol.sk, &bob.pk, &derive32(seed, "c09-he2"), &derive32(seed, "c09-hp2"), &p, &[33]).unwrap();
+    let flip_char = |t: &str, at: usize| -> String {
+        let mut c: Vec<char> = t.chars().collect();
+        let at = at.min(c.len() - 1);
+        c[at] = if c[at] == 'A' { 'B' } else { 'A' };
+        c.into_iter().collect()
+    };
+    let pk = &carol.pk_enc;
+    let long_name = "n".repeat(300);
+    let long_pk = "A".repeat(4000);
+    let mut entries: Vec<(String, String)> = vec![
+        ("pk-bad-checksum-key-part".into(), format!("[Key]\nName = mallory\nPublicKey = {}\n", flip_char(pk, 5))),
+        ("pk-bad-checksum-sum-part".into(), format!("[Key]\nName = mallory\nPublicKey = {}\n", flip_char(pk, pk.len() - 3))),
+        ("pk-35-bytes".into(), format!("[Key]\nName = mallory\nPublicKey = {}\n", r::b64(&[7u8; 35]))),
+        ("pk-37-bytes".into(), format!("[Key]\nName = mallory\nPublicKey = {}\n", r::b64(&[7u8; 37]))),
+        ("pk-36-bytes-of-zero".into(), format!("[Key]\nName = mallory\nPublicKey = {}\n", r::b64(&[0u8; 36]))),
+        ("pk-empty".into(), "[Key]\nName = mallory\nPublicKey = \n".into()),
+        ("pk-not-base64".into(), "[Key]\nName = mallory\nPublicKey = !!!not base64!!!\n".into()),
+        ("pk-very-long".into(), format!("[Key]\nName = mallory\nPublicKey = {}\n", long_pk)),
+        ("pk-alice-under-another-name".into(), format!("[Key]\nName = mallory\nPublicKey = {}\n", alice.pk_enc)),
+        ("name-alice-again".into(), format!("[Key]\nName = alice\nPublicKey = {}\n", pk)),
+        ("name-bob-again-with-bad-checksum".into(), format!("[Key]\nName = bob\nPublicKey = {}\n", flip_char(pk, 9))),
+        ("name-empty".into(), format!("[Key]\nName = \nPublicKey = {}\n", pk)),
+        ("name-long".into(), format!("[Key]\nName = {}\nPublicKey = {}\n", long_name, pk)),
+        ("name-unicode".into(), format!("[Key]\nName = m\u{e4}llory \u{1F600}\nPublicKey = {}\n", pk)),
+        ("no-name".into(), format!("[Key]\nPublicKey = {}\n", pk)),
+        ("no-public-key".into(), "[Key]\nName = mallory\n".into()),
+        ("bare-header".into(), "[Key]\n".into()),
+        ("unknown-field".into(), format!("[Key]\nName = mallory\nPublicKey = {}\nColour = blue\n", pk)),
+        ("garbage-line".into(), format!("[Key]\nName = mallory\nthis is not a field\nPublicKey = {}\n", pk)),
+        ("sk-wrong-length".into(), format!("[Key]\nName = mallory\nPublicKey = {}\nPrivateKey = {}\n", pk, r::b64(&[1u8; 83]))),
+        ("sk-not-base64".into(), format!("[Key]\nName = mallory\nPublicKey = {}\nPrivateKey = ???\n", pk)),
+        ("sk-flipped".into(), format!("[Key]\nName = mallory\nPublicKey = {}\nPrivateKey = {}\n", pk, flip_char(&carol.locked, 50))),
+        ("sk-wrong-magic".into(), format!("[Key]\nName = mallory\nPublicKey = {}\nPrivateKey = {}\n", pk, r::b64(&[0u8; 84]))),
+        ("fields-twice".into(), format!("[Key]\nName = mallory\nName = mallory2\nPublicKey = {}\nPublicKey = {}\n", pk, flip_char(pk, 4))),
+        ("crlf".into(), format!("[Key]\r\nName = mallory\r\nPublicKey = {}\r\n", flip_char(pk, 7))),
+        ("nul-in-value".into(), format!("[Key]\nName = mal\0lory\nPublicKey = {}\n", flip_char(pk, 7))),
+    ];
+    entries.push(("benign".into(), format!("[Key]\nName = mallory\nPublicKey = {}\n", pk)));
+    let ops: Vec<(&str, Vec<&str>)> = vec![
+        ("encrypt", vec!["encrypt", "plain.bin", "-t", "bob", "-f", "alice", "-k", "kr.txt", "-o", "out.bin", "--env-pass"]),
+        ("decrypt-known-sender", vec!["decrypt", "a.ktl", "-t", "bob", "-k", "kr.txt", "-o", "out.bin", "--env-pass"]),
+        ("decrypt-unknown-sender", vec!["decrypt", "c.ktl", "-t", "bob", "-k", "kr.txt", "-o", "out.bin", "--env-pass"]),
+    ];
+    let mut jobs = vec![];
+    for (en, e) in &entries {
+        for pos in 0..3usize {
+            for (on, a) in &ops {
+                jobs.push((en.clone(), e.clone(), pos, *on, a.clone()));
+            }
+        }
+    }
+    let completed = std::sync::atomic::AtomicU64::new(0);
+    jobs.par_iter().for_each(|(en, e, pos, on, a)| {
+        rep.eval(1);
+        rep.nontrivial(format!("hostile-ring-{}-{}-{}", en, pos, on).as_bytes());
+        let mut parts = vec![alice.entry(true), bob.entry(true)];
+        parts.insert(*pos, e.clone());
+        let kr = parts.join("\n");
+        let sc = Scratch::new();
+        sc.write("kr.txt", kr.as_bytes());
+        sc.write("plain.bin", &p);
+        sc.write("a.ktl", &from_alice);
+        sc.write("c.ktl", &from_carol);
+        let cmd = Cmd::new(a).env("KESTREL_PASSWORD", "alicepw");
+        let out = proc::run(&cmd, &sc.0);
+        if out.ok() {
+            completed.fetch_add(1, std::sync::atomic::Ordering::Relaxed);
+        }
+        if let Err(er) = out.well_behaved() {
+            rep.violation(
+                &format!("cli-hostile-keyring/{}", er.split(' ').take(3).collect::<Vec<_>>().join("-")),
+                json!({"kind":"hostile-keyring","entry":en,"position":pos,"op":on,"keyring":kr}),
+                format!("{} with a keyring whose entry {} of 3 is '{}': {} — {}", on, pos + 1, en, er, out.summary()),
+            );
+        }
+    });
+    rep.extra("cli_hostile_keyring_runs", json!(jobs.len()));
+    rep.extra("cli_hostile_keyring_runs_completed_with_exit_0", json!(completed.load(std::sync::atomic::Ordering::Relaxed)));
+}
+
 pub fn run(rep: &'static Report) {
     rep.set_rule("E-GRID per untrusted-input surface (all byte strings of length <= 2, every prefix of authentic files, every message length for noise_decrypt and the AEAD wrappers, every length/character-class of key strings, hostile values of every header field under heap accounting) and E-PROC: every argument vector of length <= 3 (quick) / <= 4 (thorough) over a 28-token vocabulary under two environments, as real processes. distinct non-trivial = distinct inputs per surface");
     rep.rule_add("CLI argument vectors and the per-slot value grid run as real processes; library compiled with overflow checks.");
+    rep.rule_add("Hostile keyrings: 27 entry shapes x 3 positions among genuine entries x {encrypt, decrypt with known sender, decrypt with unknown sender}, commands that otherwise complete.");
     rep.assume("the keyring parser surface is enumerated by C17; all C03 graph states also run under the panic guard");
     rep.assume("stdin is /dev/null and the process has no controlling terminal (setsid), so prompts cannot block; wall limit 30 s per process");
     kra::note(rep);
@@ -786,12 +926,21 @@ pub fn run(rep: &'static Report) {
     cli_argv(rep);
     cli_slot_grid(rep);
     cli_option_junk(rep);
+    cli_hostile_keyrings(rep);
     rep.set_exhaustive(true);
 }
 
 pub fn replay(rep: &'static Report, case: &Value) {
     let ids = idents(rep.seed);
     match case["kind"].as_str().unwrap_or("") {
+        "endless-tail" => {
+            println!("  re-running the bounded-work part of C09");
+            bounded_work(rep, &idents(rep.seed));
+        }
+        "hostile-keyring" => {
+            println!("  re-running the hostile-keyring part of C09");
+            cli_hostile_keyrings(rep);
+        }
         "argv" => {
             let cmd: Cmd = serde_json::from_value(case["cmd"].clone()).unwrap();
             let seed = rep.seed;
